@@ -104,11 +104,17 @@ def sweep(ids, jobs=3):
             rc, out = sh(["git", "-C", sw, "apply", os.path.join(dst, "patch.diff")])
             assert rc == 0, out
             gm = os.path.join(sv, "harness", "go.mod")
-            open(gm, "w").write(open(gm).read().replace("=> /repo", "=> " + sw))
+            txt = open(gm).read().replace("=> /repo", "=> " + sw)
+            open(gm, "w").write(txt)
             t0 = time.time()
             p = subprocess.run([os.path.join(sv, "check"), prop, "--tier", "quick"], cwd=sv, env=dict(ENV, VERIF_REPO=sw),
                                stdout=subprocess.PIPE, stderr=subprocess.STDOUT, text=True, timeout=3000)
             viol = [l for l in p.stdout.split("\n") if l.startswith("VIOLATION")]
+            if any("harness-build" in l for l in viol):
+                try:
+                    viol.append(json.load(open(os.path.join(sv, "replays", "%s-harness-build.json" % prop)))["output"][-600:])
+                except Exception as e:  # noqa
+                    viol.append(str(e))
             res = {"exit": p.returncode, "lines": viol[:4], "wall_s": round(time.time() - t0, 1),
                    "with_input": any("no-failing-input-found" not in l for l in viol)}
         except Exception as e:  # noqa
